@@ -683,3 +683,87 @@ silent("c07-silent-flatten-spelling", ["C06", "C07"], PF,
 silent("c06-silent-format-spelling", ["C06"], SF,
        "                self.format(\"%s**%s\",",
        "                \"{}**{}\".format(")
+
+# ---------------------------------------------------------------------------
+# C14
+# ---------------------------------------------------------------------------
+CF = "pymbolic/mapper/c_code.py"
+
+fire("c14-revert-product-remainder", ["C14"], CF,
+     "                self.join_rec(\" * \", expr.children, PREC_PRODUCT,\n"
+     "                    force_parens_around=(Remainder,)),",
+     "                self.join_rec(\" * \", expr.children, PREC_PRODUCT),",
+     "T/c-grammar/Product.children[1]<-Remainder")
+fire("c14-revert-square-parens", ["C14"], CF,
+     "                if enclosing_prec >= PREC_PRODUCT:\n",
+     "                if enclosing_prec > PREC_PRODUCT:\n",
+     "T/c-grammar/Power-exp-2")
+fire("c14-revert-comparison-bitwise", ["C14"], CF,
+     "                    self.rec_with_force_parens_around(\n"
+     "                        expr.left, PREC_COMPARISON+1,\n"
+     "                        force_parens_around=bitwise),",
+     "                    self.rec(expr.left, PREC_COMPARISON+1),",
+     "T/c-grammar/Comparison.left<-BitwiseOr")
+fire("c14-revert-cse-names", ["C14"], CF,
+     "        self.cse_names = {name for name, _cse_str in cse_name_list}",
+     "        self.cse_names = {_cse_str for name, _cse_str in cse_name_list}",
+     "S/c-cse/init/cse_names-role")
+fire("c14-revert-copy-map", ["C14"], CF,
+     "        result.cse_to_name = {\n"
+     "                cse: name for cse, name in self.cse_to_name.items()\n"
+     "                if name in result.cse_names}\n", "",
+     "S/c-cse/copy/carries-expression-map")
+fire("c14-floordiv-unparenthesised", ["C14"], CF,
+     "        return self.format(\"(%s/%s)\",", "        return self.format(\"%s/%s\",",
+     "T/c-floordiv/parenthesised")
+fire("c14-floordiv-numerator-prec", ["C14"], CF,
+     "                    self.rec(expr.numerator, PREC_PRODUCT),\n"
+     "                    self.rec(expr.denominator, PREC_POWER))",
+     "                    self.rec(expr.numerator, PREC_NONE),\n"
+     "                    self.rec(expr.denominator, PREC_POWER))",
+     "T/c-grammar/FloorDiv")
+fire("c14-if-argument-order", ["C14"], CF,
+     "        return self.format(\"(%s ? %s : %s)\",\n"
+     "                self.rec(expr.condition, PREC_NONE),\n"
+     "                self.rec(expr.then, PREC_NONE),\n"
+     "                self.rec(expr.else_, PREC_NONE),",
+     "        return self.format(\"(%s ? %s : %s)\",\n"
+     "                self.rec(expr.condition, PREC_NONE),\n"
+     "                self.rec(expr.else_, PREC_NONE),\n"
+     "                self.rec(expr.then, PREC_NONE),",
+     "T/c-grammar/If")
+fire("c14-pow-args-swapped", ["C14"], CF,
+     "        return self.format(\"pow(%s, %s)\",\n"
+     "                self.rec(expr.base, PREC_NONE),\n"
+     "                self.rec(expr.exponent, PREC_NONE))",
+     "        return self.format(\"pow(%s, %s)\",\n"
+     "                self.rec(expr.exponent, PREC_NONE),\n"
+     "                self.rec(expr.base, PREC_NONE))",
+     "T/c-grammar/Power")
+fire("c14-logical-and-as-bitand", ["C14"], CF,
+     "self.join_rec(\" && \", expr.children, PREC_LOGICAL_AND),",
+     "self.join_rec(\" & \", expr.children, PREC_LOGICAL_AND),",
+     "T/c-")
+fire("c14-subtraction-loses-parens", ["C14"], SF,
+     "                negatives.append(self.rec(neg_prod, PREC_PRODUCT, *args, **kwargs))",
+     "                negatives.append(self.rec(neg_prod, PREC_SUM, *args, **kwargs))",
+     "T/c-grammar/Sum-with-negated-sum")
+fire("c14-cse-name-not-tested", ["C14"], CF,
+     "            for cse_name in generate_cse_names():\n"
+     "                if cse_name not in self.cse_names:\n                    break\n\n"
+     "            self.cse_name_list.append((cse_name, cse_str))",
+     "            for cse_name in generate_cse_names():\n"
+     "                break\n\n"
+     "            self.cse_name_list.append((cse_name, cse_str))",
+     "P/c-cse/fresh-name-tested")
+fire("c14-cse-append-before-child", ["C14"], CF,
+     "            cse_str = self.rec(expr.child, PREC_NONE)\n",
+     "            self.cse_name_list.append((\"tmp\", \"\"))\n"
+     "            cse_str = self.rec(expr.child, PREC_NONE)\n",
+     "c-cse")
+fire("c14-cse-set-not-updated", ["C14"], CF,
+     "            self.cse_names.add(cse_name)\n", "",
+     "S/c-cse/miss-roles")
+silent("c14-silent-product-force-more", ["C14"], CF,
+       "                    force_parens_around=(Remainder,)),",
+       "                    force_parens_around=(Remainder, Remainder)),")
